@@ -196,58 +196,81 @@ _SIB_TR = ('ImplicitCastExpr', 'ParenExpr', 'ExprWithCleanups', 'MaterializeTemp
 
 # (function, assigned name) -> why the two siblings legitimately differ there
 SIB1_AUDITED = {
-    ('GenInverse', 'dn1'): 'the exact solver uses a form of dn that stays accurate for prolate ellipsoids (f < 0)',
-    ('GenInverse', 'dn2'): 'as dn1',
-    ('LineInit', '_dn1'): 'as dn1',
-    ('GenInverse', 'sig12'): 'the series solver adds 0 to turn -0 into +0 in the meridional case',
-    ('GenPosition', 'ssig2'): 'the exact line obtains sig2 through the elliptic functions (sncndn) first',
+    ('GenPosition', 'ssig2'): 'the series line evaluates sig2 a second time after its Newton correction; the exact line obtains '
+                              'it once',
     ('GenPosition', 'csig2'): 'as ssig2',
     ('GenPosition', 'ssig12'): 'the series line recomputes sin/cos(sig12) after its Newton correction for |f| > 0.01',
     ('GenPosition', 'csig12'): 'as ssig12',
-    ('LineInit', '_aA4'): 'the exact line keeps its own copy _e2, the series line reads g._e2',
-    ('LineInit', '_e2'): 'copy kept by the exact line only',
-    ('LineInit', '_bB41'): 'series: SinCosSeries of the C4 coefficients; exact: the DST-based I4 integral, 0 at sig1',
+    ('LineInit', '_e2'): 'copy of g._e2 kept by the exact line only (the series line reads g._e2 where it needs it)',
 }
 
 
-def _sib_canon(f, i, ids):
+def _sib_canon(f, i, ids, leaves=None):
+    """canonical text of an expression; identifiers are collected in ids, and when `leaves` is a list every
+    identifier/literal is also appended to it and replaced by `$` in the text (shape with holes)."""
+    def leaf(txt):
+        if leaves is None:
+            return txt
+        leaves.append(txt)
+        return '$'
     n = f.nodes[i]
     k = n['k']
     if k in _SIB_TR and n.get('ch'):
-        return _sib_canon(f, n['ch'][-1], ids)
+        return _sib_canon(f, n['ch'][-1], ids, leaves)
     if k == 'DeclRefExpr':
         nm = n.get('name') or '?'
         if n.get('rk') in ('param', 'local', 'var'):
             ids.add(nm)
-        return nm
+        return leaf(nm)
     if k == 'MemberExpr':
         ids.add(n.get('m'))
         b = f.nodes[f.strip_casts(n['ch'][0])] if n.get('ch') else None
         if b is None or b['k'] == 'CXXThisExpr':
-            return str(n.get('m'))
-        return _sib_canon(f, n['ch'][0], ids) + '.' + str(n.get('m'))
+            return leaf(str(n.get('m')))
+        return _sib_canon(f, n['ch'][0], ids, leaves) + '.' + leaf(str(n.get('m')))
     if k == 'CXXThisExpr':
         return 'this'
     if 'cv' in n:
-        return str(n['cv'])
+        return leaf(str(n['cv']))
     if k in ('FloatingLiteral', 'IntegerLiteral', 'CXXBoolLiteralExpr'):
-        return str(n.get('v'))
+        return leaf(str(n.get('v')))
     ce = n.get('callee')
     if ce and n.get('args') is not None:
         ids.add('()' + str(ce.get('name')))
-        return str(ce.get('name')) + '(' + ','.join(_sib_canon(f, a, ids) for a in n['args']) + ')'
+        return str(ce.get('name')) + '(' + ','.join(_sib_canon(f, a, ids, leaves) for a in n['args']) + ')'
     if k in ('BinaryOperator', 'CompoundAssignOperator'):
-        a, b = _sib_canon(f, n['ch'][0], ids), _sib_canon(f, n['ch'][1], ids)
         op = n.get('op', '?')
-        if op in ('+', '*', '==', '!=', '&&', '||', '&', '|') and b < a:
+        if leaves is None and op in ('+', '*', '&', '|', '&&', '||'):
+            # associative and commutative: flatten and sort the operands
+            parts = []
+
+            def flat(j):
+                m = f.nodes[j]
+                while m['k'] in _SIB_TR and m.get('ch'):
+                    j = m['ch'][-1]
+                    m = f.nodes[j]
+                if m['k'] == 'BinaryOperator' and m.get('op') == op:
+                    flat(m['ch'][0])
+                    flat(m['ch'][1])
+                else:
+                    parts.append(_sib_canon(f, j, ids, None))
+            flat(i)
+            return '(' + op.join(sorted(parts)) + ')'
+        a, b = _sib_canon(f, n['ch'][0], ids, leaves), _sib_canon(f, n['ch'][1], ids, leaves)
+        if leaves is None and op in ('==', '!=') and b < a:
             a, b = b, a
         return '(' + a + op + b + ')'
     if k == 'UnaryOperator':
-        return n.get('op', '?') + _sib_canon(f, n['ch'][0], ids)
+        return n.get('op', '?') + _sib_canon(f, n['ch'][0], ids, leaves)
     if k == 'ConditionalOperator':
-        return '(' + _sib_canon(f, n['cond'], ids) + '?' + _sib_canon(f, n['then'], ids) + ':' + \
-            _sib_canon(f, n['else'], ids) + ')'
-    return k + '[' + ','.join(_sib_canon(f, c, ids) for c in n.get('ch', [])) + ']'
+        return '(' + _sib_canon(f, n['cond'], ids, leaves) + '?' + _sib_canon(f, n['then'], ids, leaves) + ':' + \
+            _sib_canon(f, n['else'], ids, leaves) + ')'
+    return k + '[' + ','.join(_sib_canon(f, c, ids, leaves) for c in n.get('ch', [])) + ']'
+
+
+def _sib_shape(f, rhs_node):
+    leaves = []
+    return _sib_canon(f, rhs_node, set(), leaves), leaves
 
 
 def _sib_defs(f):
@@ -262,13 +285,13 @@ def _sib_defs(f):
             rhs = _sib_canon(f, n['ch'][1], ids)
             if n['op'] != '=':
                 rhs = '(' + lhs + n['op'][:-1] + rhs + ')'
-            out.setdefault(lhs, []).append((rhs, frozenset(ids), i))
+            out.setdefault(lhs, []).append((rhs, frozenset(ids), i, n['ch'][1], n['op']))
         elif n['k'] == 'DeclStmt':
             for d in n['decls']:
                 if d.get('init', -1) >= 0 and d['d'] not in seen:
                     seen.add(d['d'])
                     ids = {d['name']}
-                    out.setdefault(d['name'], []).append((_sib_canon(f, d['init'], ids), frozenset(ids), i))
+                    out.setdefault(d['name'], []).append((_sib_canon(f, d['init'], ids), frozenset(ids), i, d['init'], '='))
     return out
 
 
@@ -291,15 +314,17 @@ def _sib_vocab(f):
 def rule_SIB1(ctx):
     import collections
     res = RuleResult('SIB1', 'clone siblings agree: for a function of the series solver/line and the function of the same name in '
-                             'the exact solver/line, every variable or member that both assign using only names known to both '
-                             'functions is assigned the same expressions the same number of times (modulo casts, parentheses, '
-                             'operand order of commutative operators, compound assignment); audited divergences are listed')
+                             'the exact solver/line, a variable or member that both assign using only names known to both '
+                             'functions does not differ by the signature of a slip: one statement present in one sibling only, '
+                             'or one statement with a single identifier or literal changed (differently structured '
+                             'statements are rewrites and are not judged); audited divergences are listed')
     byq = {}
     for f in ctx.lib_fns():
         if f.d.get('body', -1) >= 0:
             byq.setdefault(f.q, []).append(f)
     npairs = 0
     nnames = 0
+    nrewrites = 0
     used_audit = set()
     for a, b in SIBLING_CLASSES:
         for q, fs in sorted(byq.items()):
@@ -323,30 +348,50 @@ def rule_SIB1(ctx):
                     if L not in common and base not in common:
                         continue
                     sf, sg = df.get(L, []), dg.get(L, [])
-                    if any(not ids <= common for _, ids, _ in sf + sg):
+                    if any(not x[1] <= common for x in sf + sg):
                         continue            # one side uses names the other does not have: not comparable
                     nnames += 1
-                    cf = collections.Counter(s for s, _, _ in sf)
-                    cg = collections.Counter(s for s, _, _ in sg)
+                    cf = collections.Counter(x[0] for x in sf)
+                    cg = collections.Counter(x[0] for x in sg)
                     if cf == cg:
                         res.ob(True, None)
+                        continue
+                    only_f, only_g = list((cf - cg).elements()), list((cg - cf).elements())
+                    # the two signatures of a slip (anything else is a rewrite and is not judged):
+                    #  (i) one side has exactly one statement more, the rest is identical;
+                    #  (ii) one statement on each side, same structure, exactly one identifier or literal differs
+                    kind = None
+                    if (len(only_f), len(only_g)) in ((1, 0), (0, 1)):
+                        kind = 'one sibling has a statement the other lacks'
+                    elif len(only_f) == 1 and len(only_g) == 1:
+                        xf = [x for x in sf if x[0] == only_f[0]][0]
+                        xg = [x for x in sg if x[0] == only_g[0]][0]
+                        (shf, lf_), (shg, lg_) = _sib_shape(f, xf[3]), _sib_shape(g, xg[3])
+                        if shf == shg and xf[4] == xg[4] and len(lf_) == len(lg_):
+                            diff = [(a_, b_) for a_, b_ in zip(lf_, lg_) if a_ != b_]
+                            if len(diff) == 1:
+                                kind = 'the same statement with %s in one sibling and %s in the other' % diff[0]
+                    if kind is None:
+                        nrewrites += 1
+                        res.ob(True, {'function': nm, 'name': L, 'not_judged': 'the siblings assign it through differently '
+                                      'structured statements (a rewrite, not the signature of a slip)'})
                         continue
                     if (nm, L) in SIB1_AUDITED:
                         used_audit.add((nm, L))
                         res.ob(True, {'function': nm, 'name': L, 'audited': SIB1_AUDITED[(nm, L)]})
                         continue
-                    res.ob(False, {'series': f.q, 'exact': g.q, 'name': L, 'only_series': sorted((cf - cg).elements())[:3],
-                                   'only_exact': sorted((cg - cf).elements())[:3]})
+                    res.ob(False, {'series': f.q, 'exact': g.q, 'name': L, 'only_series': sorted(only_f)[:3],
+                                   'only_exact': sorted(only_g)[:3]})
                     at = None
-                    for s, _, i in sf:
-                        if s in (cf - cg):
-                            at = f.loc(i)
-                    for s, _, i in sg:
-                        if at is None and s in (cg - cf):
-                            at = g.loc(i)
+                    for x in sf:
+                        if x[0] in only_f:
+                            at = f.loc(x[2])
+                    for x in sg:
+                        if at is None and x[0] in only_g:
+                            at = g.loc(x[2])
                     res.fail(f.q, L, at or f.loc(),
-                             '%s is assigned differently in the siblings %s and %s: only in the series version %s; only in the '
-                             'exact version %s' % (L, f.q, g.q, sorted((cf - cg).elements())[:2] or 'nothing',
-                                                   sorted((cg - cf).elements())[:2] or 'nothing'))
-    res.analysed.update({'sibling_pairs': npairs, 'names_compared': nnames, 'audited_divergences_used': len(used_audit)})
+                             '%s in the siblings %s and %s: %s (series only: %s; exact only: %s)'
+                             % (L, f.q, g.q, kind, sorted(only_f)[:2] or 'nothing', sorted(only_g)[:2] or 'nothing'))
+    res.analysed.update({'sibling_pairs': npairs, 'names_compared': nnames, 'audited_divergences_used': len(used_audit),
+                         'differently_structured_not_judged': nrewrites})
     return res, npairs, nnames
